@@ -166,7 +166,25 @@ class CtAnalysis(taint.FnAnalysis):
             self._status_switch = False
         super().exec_block(bi, st)
 
+    def assign(self, place, rv, st, ctrl, line):
+        self._cur_rv = rv
+        super().assign(place, rv, st, ctrl, line)
+        self._cur_rv = None
+
+    def _returns_option_or_bool(self):
+        rt = self.f.ty(self.fn["locals"][0][0])
+        s_ = rt.get("s", "")
+        return rt.get("k") == "bool" or s_.startswith("core::option::Option<") or s_.startswith("std::option::Option<")
+
     def sink(self, kind, site, labels, detail):
+        if kind == "cmp":
+            rv = getattr(self, "_cur_rv", None)
+            if rv is not None and rv[0] == "bin" and rv[1] in ("Eq", "Ne") and self._returns_option_or_bool():
+                sr = self.eng.status_rule
+                for x, y in ((rv[2], rv[3]), (rv[3], rv[2])):
+                    if y[0] == "k" and y[1] is not None and int(y[1]) in (0, 0xFFFFFFFF) and sr.status_expr(self.body, x):
+                        kind = "cmp-status"
+                        break
         if kind == "branch" and getattr(self, "_status_switch", False):
             rt = self.f.ty(self.fn["locals"][0][0])
             s = rt.get("s", "")
@@ -329,7 +347,7 @@ def run_ctflow(facts, run, prop="C02"):
         bad_sites = []
         for (kind, site, detail), labels in summ.sinks.items():
             n_sinks += 1
-            if kind == "branch-status":
+            if kind in ("branch-status", "cmp-status"):
                 continue
             secret = [a for a in labels if check(a) is None]
             if not secret:
@@ -354,12 +372,12 @@ def run_ctflow(facts, run, prop="C02"):
                 if ent.get("configs") and cfg not in ent["configs"]:
                     continue
                 if ent.get("inner"):
-                    if re.fullmatch(ent["inner"], norm_name(innermost)) and ent.get("kind", "*") in ("*", bs[0]):
+                    if re.fullmatch(ent["inner"], norm_name(innermost)) and ent.get("kind", "*") in ("*", bs[0], "branch" if bs[0] == "cmp" else bs[0]):
                         ok = True
                         used_declass.add("inner:" + ent["inner"])
                         break
                     continue
-                if re.fullmatch(ent["fn"], name) and (ent.get("kind", "*") in ("*", bs[0])):
+                if re.fullmatch(ent["fn"], name) and (ent.get("kind", "*") in ("*", bs[0], "branch" if bs[0] == "cmp" else bs[0])):
                     inner = bs[1][1] if isinstance(bs[1], tuple) else None
                     if ent.get("via") and not (inner and re.fullmatch(ent["via"], norm_name(inner))):
                         continue
